@@ -1328,6 +1328,11 @@ pub fn run_simple(ctx: &Ctx) -> i32 {
         acc.merge(t);
         acc.violations.sort_by(|a, b| (a.key.as_str(), a.what.as_str()).cmp(&(b.key.as_str(), b.what.as_str())));
     }
+    if prop == "C10" {
+        // the Gaussian map in a scalar type wider than f64 (double-double end to end)
+        acc.merge(crate::c14::dd_sampler_pass(ctx));
+        acc.violations.sort_by(|a, b| (a.key.as_str(), a.what.as_str()).cmp(&(b.key.as_str(), b.what.as_str())));
+    }
     if prop == "C08" || prop == "C09" {
         acc.merge(orbit_pass(ctx));
         acc.violations.sort_by(|a, b| (a.key.as_str(), a.what.as_str()).cmp(&(b.key.as_str(), b.what.as_str())));
@@ -1731,6 +1736,9 @@ pub fn replay_point(ctx: &Ctx, v: &Value) -> i32 {
         eprintln!("  reference: order {:?} margin {:e} ln_x {:?}", rr.order, rr.margin, rr.ln_x);
     }
     let mut acc = Acc::new();
+    if v["extra"]["dd_sampler"].as_bool().unwrap_or(false) {
+        crate::c14::check_dd_sample(&ctx.prop, &case, r, &x, &mut acc);
+    }
     match ctx.prop.as_str() {
         "C07" => c07_point(&case, &r, &po, 0, &mut acc),
         "C08" => c08_point(&case, &r, &po, 0, &mut acc),
